@@ -33,7 +33,7 @@ ASSUMPTIONS = [
 def strategy(tier):
     return sched.sched_specs(quiet=True, adaptive=False, force_last=False,
                              precisions=(None, None, None, 1), state_cond=True,
-                             twin_ok=True)
+                             twin_ok=True, deep=tier == 'thorough')
 
 
 def close(a, b, exact):
